@@ -111,6 +111,7 @@ func c07Scheds(tier string) []c07Sched {
 		{hx.Mem, [][]reqKind{{rDelOK, rCreate}}, false, false},
 		{hx.Mem, [][]reqKind{{rUpdOK}}, true, false},
 		{hx.Mem, nil, true, true},
+		{hx.Mem, nil, true, false}, // compactor against a re-creation of a key whose tombstone it is compacting
 	}
 	if tier == "thorough" {
 		out = append(out,
@@ -277,6 +278,13 @@ func init() {
 				p := mc.SchedPlan{Class: "schedules/" + scheds[i].engine, Bounds: []int{0}, Shard: true}
 				if c.Tier == "thorough" {
 					p.Bounds = []int{0, 1}
+				}
+				if len(scheds[i].writers) == 0 && !scheds[i].reader {
+					p.Class += "/compactor-vs-recreate"
+					p.Bounds = []int{0, 1}
+					if c.Tier == "thorough" {
+						p.Bounds = []int{0, 1, 2}
+					}
 				}
 				return p
 			})
